@@ -1,0 +1,206 @@
+//go:build verif
+
+// Verification hooks (build tag "verif"): read-only white-box statistics and
+// a reset of the package-level tables, used by the deterministic simulator
+// under /verif. Nothing here is compiled into a normal build.
+
+package table
+
+import (
+	"time"
+
+	enc "github.com/named-data/ndnd/std/encoding"
+)
+
+// VerifResetGlobals gives the process fresh package-level tables so that one
+// simulated run cannot see state left by the previous one.
+func VerifResetGlobals() {
+	Rib = RibTable{
+		RibEntry: RibEntry{
+			children: map[*RibEntry]bool{},
+		},
+	}
+	NetworkRegion = new(networkRegionTable)
+	readvertisers = make([]RibReadvertise, 0)
+}
+
+// VerifSetCsFlags sets the CS admit/serve switches.
+func VerifSetCsFlags(admit bool, serve bool) {
+	csAdmit = admit
+	csServe = serve
+}
+
+// VerifSetDnlLifetimeNs sets the DNL lifetime.
+func VerifSetDnlLifetimeNs(ns int64) {
+	deadNonceListLifetime = time.Duration(ns)
+}
+
+// VerifPitCsStats is a white-box census of a PIT-CS tree.
+type VerifPitCsStats struct {
+	TreeNodes      int // nodes excluding the root
+	NeededNodes    int // nodes (excluding root) on a path to a PIT entry or CS entry
+	PitEntriesTrue int // PIT entries reachable in the tree
+	PitReported    int
+	TokenMap       int
+	ExpiryQueue    int
+	CsEntriesTrue  int // CS entries reachable in the tree
+	CsReported     int
+	CsMap          int
+	LruLen         int
+	LruLocations   int
+}
+
+func (p *PitCsTree) VerifStats() VerifPitCsStats {
+	s := VerifPitCsStats{
+		PitReported: p.nPitEntries,
+		TokenMap:    len(p.pitTokenMap),
+		ExpiryQueue: p.pitExpiryQueue.Len(),
+		CsReported:  p.nCsEntries,
+		CsMap:       len(p.csMap),
+	}
+	if lru, ok := p.csReplacement.(*CsLRU); ok {
+		s.LruLen = lru.queue.Len()
+		s.LruLocations = len(lru.locations)
+	}
+	var walk func(n *pitCsTreeNode) bool
+	walk = func(n *pitCsTreeNode) bool {
+		needed := len(n.pitEntries) > 0 || n.csEntry != nil
+		s.PitEntriesTrue += len(n.pitEntries)
+		if n.csEntry != nil {
+			s.CsEntriesTrue++
+		}
+		for _, c := range n.children {
+			s.TreeNodes++
+			if walk(c) {
+				s.NeededNodes++
+				needed = true
+			}
+		}
+		return needed
+	}
+	walk(p.root)
+	return s
+}
+
+// VerifPitEntry is a read-only copy of a PIT entry for oracles.
+type VerifPitEntry struct {
+	Name        enc.Name
+	CanBePrefix bool
+	MustBeFresh bool
+	Hint        enc.Name
+	Token       uint32
+	Satisfied   bool
+	ExpiryNs    int64
+	InFaces     []uint64
+	OutFaces    []uint64
+	Queued      bool
+}
+
+func (p *PitCsTree) VerifPitEntries() []VerifPitEntry {
+	out := []VerifPitEntry{}
+	var walk func(n *pitCsTreeNode)
+	walk = func(n *pitCsTreeNode) {
+		for _, e := range n.pitEntries {
+			v := VerifPitEntry{Name: e.encname, CanBePrefix: e.canBePrefix, MustBeFresh: e.mustBeFresh,
+				Hint: e.forwardingHintNew, Token: e.token, Satisfied: e.satisfied,
+				ExpiryNs: e.expirationTime.UnixNano(), Queued: e.pqItem != nil}
+			for f := range e.inRecords {
+				v.InFaces = append(v.InFaces, f)
+			}
+			for f := range e.outRecords {
+				v.OutFaces = append(v.OutFaces, f)
+			}
+			out = append(out, v)
+		}
+		for _, c := range n.children {
+			walk(c)
+		}
+	}
+	walk(p.root)
+	return out
+}
+
+// VerifCsNames lists the names of all cached Data reachable in the tree.
+func (p *PitCsTree) VerifCsNames() []enc.Name {
+	out := []enc.Name{}
+	var walk func(n *pitCsTreeNode, prefix enc.Name)
+	walk = func(n *pitCsTreeNode, prefix enc.Name) {
+		if n.csEntry != nil {
+			out = append(out, prefix.Clone())
+		}
+		for _, c := range n.children {
+			walk(c, append(prefix, *c.component))
+		}
+	}
+	walk(p.root, enc.Name{})
+	return out
+}
+
+// VerifDnlLen returns the number of dead-nonce records and queued expirations.
+func (d *DeadNonceList) VerifLen() (int, int) {
+	return len(d.list), d.expirationQueue.Len()
+}
+
+// VerifFibStats is a white-box census of the FIB structures.
+type VerifFibStats struct {
+	Kind        string
+	TreeNodes   int // name tree: nodes excluding root
+	NeededNodes int // name tree: nodes on a path to an entry holding next hops or a strategy
+	FibPrefixes int // name tree: fibPrefixes map size
+	RealEntries int // hash table
+	RealNeeded  int // hash table: real entries holding next hops or a strategy
+	VirtEntries int
+	VirtNames   int
+}
+
+func VerifFibStatsOf(f FibStrategy) VerifFibStats {
+	switch t := f.(type) {
+	case *FibStrategyTree:
+		s := VerifFibStats{Kind: "nametree", FibPrefixes: len(t.fibPrefixes)}
+		var walk func(n *fibStrategyTreeEntry) bool
+		walk = func(n *fibStrategyTreeEntry) bool {
+			needed := len(n.nexthops) > 0 || n.strategy != nil
+			for _, c := range n.children {
+				s.TreeNodes++
+				if walk(c) {
+					s.NeededNodes++
+					needed = true
+				}
+			}
+			return needed
+		}
+		walk(t.root)
+		return s
+	case *FibStrategyHashTable:
+		s := VerifFibStats{Kind: "hashtable", RealEntries: len(t.realTable), VirtEntries: len(t.virtTable)}
+		for _, e := range t.realTable {
+			if len(e.nexthops) > 0 || e.strategy != nil {
+				s.RealNeeded++
+			}
+		}
+		for _, m := range t.virtTableNames {
+			s.VirtNames += len(m)
+		}
+		return s
+	}
+	return VerifFibStats{Kind: "unknown"}
+}
+
+// VerifRibStats counts RIB tree nodes (excluding the root) and those on a path
+// to an entry that holds routes.
+func VerifRibStats() (nodes int, needed int) {
+	var walk func(n *RibEntry) bool
+	walk = func(n *RibEntry) bool {
+		need := len(n.routes) > 0
+		for c := range n.children {
+			nodes++
+			if walk(c) {
+				needed++
+				need = true
+			}
+		}
+		return need
+	}
+	walk(&Rib.RibEntry)
+	return
+}
